@@ -97,8 +97,9 @@ def run_repo_tests(ck, runs, perturb=30):
     wd = os.path.join(ck.dir, "tlc")
     tlc.stage(wd)
     total = ok = 0
-    for k, (prec, args) in enumerate(runs):
-        rc, stream = pipe.run_repo_test(prec, args, out, "t%d" % k, perturb=perturb)
+    for k, run in enumerate(runs):
+        prec, args = run[0], run[1]
+        rc, stream = pipe.run_repo_test(prec, args, out, "t%d" % k, perturb=perturb, stdin_path=(run[2] if len(run) > 2 else None))
         key = "repotest:p%stest %s" % (prec, " ".join(args))
         if rc != 0 or not os.path.exists(stream):
             ck.case(key)
